@@ -80,6 +80,7 @@ def main():
         for c in checks:
             r = sh(
                 f"cd {HERE} && VERIF_REPO={wt} VERIF_SEED={args.seed} "
+                f"VF_FOUND_DIR={wt}/.vf_found "
                 f"./check {c} {args.tier} --no-evidence"
             )
             lines = r.stdout.split("\n")
@@ -90,8 +91,6 @@ def main():
                 "violations": sum("VIOLATION" in l for l in lines),
                 "first_signatures": sigs,
             }
-            for f in glob.glob(os.path.join(HERE, "replays", "*", "new-*.json")):
-                os.remove(f)
         ok = (
             args.skip_verify
             or (ver.get("demo_clean_exit") == 0
